@@ -11,7 +11,8 @@
     fh <n> <d> <m:w,m:w,…>         -> ok                        (n × FailHigh(d, board, moves, stack))
     rank <m>                       -> <RankNoisy> <RankQuiet>
     pick <hm>                      -> m:w,m:w,…                 (yielded entries in order)
-    pickx <hm>                     -> m:w,m:w,…|<bit>           (bit: the Next after the last yield returns false)
+    pickx <hm>                     -> m:w,…|<bit>|m:w,…         (bit: the Next after the last yield returns false;
+                                                                 then YieldedMoves(): the frame prefix with its FINAL weights)
     gen                            -> noisy|quiet
 -/
 import ChessVerif.Model.Board
@@ -90,7 +91,7 @@ def step (st : DS) (line : String) : DS × String :=
     let hm := hm.toNat!
     let rk := Picker.rankOf st.ranker b st.stack
     let fin := Picker.runState b hm rk Picker.fuel Picker.init
-    (st, s!"{wmStr (Picker.yieldedW b hm rk)}|{bstr (!(Picker.next b hm rk fin).1)}")
+    (st, s!"{wmStr (Picker.yieldedW b hm rk)}|{bstr (!(Picker.next b hm rk fin).1)}|{wmStr fin.done}")
   | ["gen"] => (st, movesStr (MoveGen.genNoisy b) ++ "|" ++ movesStr (MoveGen.genNotNoisy b))
   | _ => (st, "bad-op")
 
